@@ -1,3 +1,5 @@
+import RossModel.Lemmas.Run
+import RossModel.Lemmas.Transparent
 import RossModel.Lemmas.Packet
 /-!
 # C10 — Fragmentation produces exactly the documented frame sequence
@@ -19,5 +21,29 @@ open Ross
 
 theorem C10_toFrames_eq_spec (p : Packet) (hn : p.data.length ≤ 28672) : p.toFrames = .ok (specFrames p) :=
   Ross.toFrames_eq_spec p hn
+
+/-- number of frames: one for payloads of at most 8 bytes, otherwise ⌈n / 7⌉ -/
+theorem C10_count (p : Packet) :
+    (specFrames p).length = if p.data.length ≤ 8 then 1 else (p.data.length + 6) / 7 := by
+  unfold specFrames; split
+  · rfl
+  · simp [chunks7_length]
+
+/-- every frame is well-formed (at most 8 data bytes, 12-bit id, unused bytes zero) and its id kind follows the
+start flag -/
+theorem C10_frames_wf (p : Packet) (hn : p.data.length ≤ 28672) : ∀ f ∈ specFrames p, f.WF ∧ f.idLast = f.start :=
+  Ross.specFrames_wf p hn
+
+/-- exactly the first frame is marked as start -/
+theorem C10_first_is_start (p : Packet) :
+    ∃ f0 rest, specFrames p = f0 :: rest ∧ f0.start = true ∧ ∀ f ∈ rest, f.start = false :=
+  Ross.specFrames_shape p
+
+/-- non-vacuity: the repository's 14-byte test vector becomes its two golden frames -/
+example : (⟨false, 0x0101, [1, 2, 3, 4, 5, 6, 7, 8, 9, 10, 11, 12, 13, 14]⟩ : Packet).toFrames = .ok
+    [{ notError := true, start := true, multi := true, idLast := true, fid := 1, addr := 0x0101, dataLen := 8,
+       data := [1, 1, 2, 3, 4, 5, 6, 7] },
+     { notError := true, start := false, multi := true, idLast := false, fid := 1, addr := 0x0101, dataLen := 8,
+       data := [1, 8, 9, 10, 11, 12, 13, 14] }] := by decide
 
 end Ross.Props
